@@ -48,6 +48,7 @@ Num(b) == IF b = 0 THEN 0 ELSE 1 + Num(Par(b))
 TxsOf(b) == IF b = 0 THEN <<>> ELSE tree.txs[b]
 TxSet(b) == {TxsOf(b)[i] : i \in 1..Len(TxsOf(b))}
 LogsOf(b) == [i \in 1..Len(TxsOf(b)) |-> <<TxsOf(b)[i], b>>]        \* every tx emits one log
+Lg(b, r)  == [i \in 1..Len(TxsOf(b)) |-> <<TxsOf(b)[i], b, r>>]     \* as delivered: r = 1 iff the Removed flag is set
 RECURSIVE Anc(_)
 Anc(b) == IF b = 0 THEN {0} ELSE {b} \cup Anc(Par(b))                \* inclusive
 RECURSIVE PathUp(_, _)
@@ -68,7 +69,7 @@ TreeOK(t) ==
   /\ Len(t.txs) = Len(t.parent)
   /\ \A b \in 1..Len(t.parent) : \A i \in 1..Len(t.txs[b]) : t.txs[b][i] \in 1..t.ntx
 
-NoEv == [chain |-> <<>>, head |-> <<>>, rm |-> <<>>, logs |-> <<>>]
+NoEv == [chain |-> <<>>, crcpt |-> <<>>, head |-> <<>>, rm |-> <<>>, logs |-> <<>>]
 
 (* ------------------------------------------------------------------------------------ *)
 (* The mutable part as a record so that the call bodies can be written as functions.     *)
@@ -80,6 +81,7 @@ HasBlock(S, b) == b = 0 \/ b \in S.known
 HasSt(S, b)    == b = 0 \/ b \in S.hasState
 KnownWS(S, b)  == HasBlock(S, b) /\ HasSt(S, b)                   \* HasBlockAndState
 DbLogs(S, b)   == IF b \in S.rcpt THEN LogsOf(b) ELSE <<>>        \* collectLogs reads stored receipts
+DbLg(S, b, r)  == IF b \in S.rcpt THEN Lg(b, r) ELSE <<>>         \* ... a fresh copy, Removed set as asked
 Emit(S, k, x)  == [S EXCEPT !.ev[k] = Append(@, x)]
 EmitNE(S, k, x) == IF x = <<>> THEN S ELSE Emit(S, k, x)
 
@@ -103,8 +105,8 @@ Reorg(S, old, new) ==
   LET c      == CommonAnc(old, new)
       oc     == PathUp(old, c)                      \* old head first
       nc     == PathUp(new, c)                      \* new head first
-      rmLogs == Flat([i \in 1..Len(oc) |-> DbLogs(S, oc[Len(oc) + 1 - i])])      \* forward order
-      reborn == Flat([i \in 1..(IF Len(nc) > 1 THEN Len(nc) - 1 ELSE 0) |-> DbLogs(S, nc[Len(nc) + 1 - i])])
+      rmLogs == Flat([i \in 1..Len(oc) |-> DbLg(S, oc[Len(oc) + 1 - i], 1)])     \* forward order, Removed = true
+      reborn == Flat([i \in 1..(IF Len(nc) > 1 THEN Len(nc) - 1 ELSE 0) |-> DbLg(S, nc[Len(nc) + 1 - i], 0)])
       S1     == EmitNE(S, "rm", rmLogs)
       S2     == WriteHeads(S1, nc, Len(nc))
       S3     == EmitNE(S2, "logs", reborn)
@@ -125,7 +127,7 @@ StoreWithState(S, b) == [S EXCEPT !.known = @ \cup {b}, !.hasState = @ \cup {b},
 Process(S, b) ==
   LET S0 == IF CanonAt(S, Num(b)) = b /\ Num(b) <= Num(S.hb) THEN [S EXCEPT !.rx = @ \cup {b}] ELSE S
       S1 == SetHeadTo(StoreWithState(S0, b), b)
-  IN EmitNE(Emit(S1, "chain", b), "logs", LogsOf(b))
+  IN EmitNE(Emit(Emit(S1, "chain", b), "crcpt", Lg(b, 0)), "logs", Lg(b, 0))
 
 (* writeKnownBlock: no ChainEvent and no logs for the block itself *)
 WriteKnown(S, b) == SetHeadTo([S EXCEPT !.kb = @ \cup {b}], b)
@@ -198,7 +200,7 @@ InsertNoHeadF(S, b) ==
 SetCanonicalF(S, b) ==
   LET S0 == IF HasSt(S, b) THEN S ELSE Recover(S, b)
       S1 == SetHeadTo(S0, b)
-  IN Emit(EmitNE(Emit(S1, "chain", b), "logs", DbLogs(S1, b)), "head", b)
+  IN Emit(EmitNE(Emit(Emit(S1, "chain", b), "crcpt", DbLg(S1, b, 0)), "logs", DbLg(S1, b, 0)), "head", b)
 
 (* SetHead(n): HeaderChain.setHead with the update/delete callbacks of setHeadBeyondRoot *)
 MaxNum(S) == LET ns == {Num(b) : b \in S.known} IN IF ns = {} THEN 0 ELSE CHOOSE m \in ns : \A k \in ns : k <= m
@@ -326,6 +328,7 @@ CacheCoherent == \A t \in 1..NT : cache[t] = Resolve(t)
 ResolveRcpt(t) == LET b == Resolve(t) IN IF b # Nil /\ b \in rcpt THEN b ELSE Nil
 ProjState == [known |-> known, hasState |-> hasState \ {0}, rcpt |-> rcpt, canon |-> canon,
               hb |-> hb, hh |-> hh, hs |-> hs, txl |-> txl, tail |-> tail,
+              clogs    |-> [n \in 1..N |-> IF n <= Num(hb) /\ canon[n] # Nil /\ canon[n] \in rcpt THEN Lg(canon[n], 0) ELSE <<>>],
               resolve  |-> cache,
               dresolve |-> [t \in 1..NT |-> Resolve(t)],
               rresolve |-> [t \in 1..NT |-> ResolveRcpt(t)],
@@ -339,8 +342,12 @@ LogSet(bs)  == UNION {SeqSet(LogsOf(b)) : b \in bs}
 (* caller, the engine API, never does that: excluded from the claim)                          *)
 Redundant == res'.op = "SetCanonical" /\ ev'.chain[1] \in CanonBlocks
 ReorgCall == res'.op \in {"InsertChain", "InsertNoHead", "SetCanonical"} /\ ~Redundant
-Removed   == SeqSet(Flat(ev'.rm))
-Added     == SeqSet(Flat(ev'.logs))
+Pairs(ls) == {<<x[1], x[2]>> : x \in SeqSet(ls)}
+Removed   == Pairs(Flat(ev'.rm))
+Added     == Pairs(Flat(ev'.logs))
+(* removed logs carry the Removed flag; announced logs and the receipts of a ChainEvent do not *)
+FlagsRight == [][/\ \A x \in SeqSet(Flat(ev'.rm)) : x[3] = 1
+                 /\ \A x \in SeqSet(Flat(ev'.logs)) \cup SeqSet(Flat(ev'.crcpt)) : x[3] = 0]_vars
 RemovedLogsExact   == [][ReorgCall => Removed = LogSet(CanonBlocks \ CanonBlocks')]_vars
 AddedLogsCanonical == [][ReorgCall => Added \subseteq LogSet(CanonBlocks')]_vars
 AddedLogsComplete  == [][ReorgCall => LogSet(CanonBlocks' \ CanonBlocks) \subseteq Added]_vars
